@@ -29,7 +29,21 @@ def dec_impl(n):
     except Exception: return "raised"
 
 
+def thread_call(kind, a, b=None):
+    return dec_impl(a) if kind == "dec" else enc_impl(a, b)
+
+
+def run_threads(tier, out):
+    """the first encodings and decodings of a process, made by several threads at once"""
+    evens = list(range(2, 255, 2)); subs = [[d for d in range(7) if m >> d & 1] for m in range(1, 128)]
+    calls = [["dec", 254], ["dec", 2], ["dec", 128]] + [["dec", n] for n in evens[::5]] + [["enc", f, l] for l in subs[::9] for f in (1, 2, 3)]
+    ex = [lib.run_model([lib.req("bitsum_spec", c[1])])[0] if c[0] == "dec" else lib.run_model([lib.req("weekdays_spec", {1: 1, 2: 2, 3: 2}[c[1]], c[2])])[0] for c in calls]
+    world.run_threads(out, "several-threads-from-the-first-call-on", "props.c12", "thread_call", calls, ex,
+                      lambda c: ("bit_summary_to_days(%s)" % c[1]) if c and c[0] == "dec" else "weekdays_to_hexadecimal(%s)" % (c[1:] if c else ""), startups=96 if tier == "quick" else 1500, spread=False)
+
+
 def run(tier, rnd, out):
+    run_threads(tier, out)
     cs = [(0, [d]) for d in range(7)]
     for m in range(1, 128):
         l = [d for d in range(7) if m >> d & 1]
@@ -128,4 +142,5 @@ def run(tier, rnd, out):
 
 def replay(rp, out):
     import random
+    if "threads" in rp.get("stream", ""): return run_threads("thorough", out)
     run("quick", random.Random(1), out)
